@@ -104,17 +104,19 @@ def run (sk : Skeleton) (s : Sys) (sched : List Nat) : Sys := sched.foldl (step 
 structure LW where
   logs : List String        -- length = cap
   index : Nat := 0
+  /-- the ring has wrapped: every slot holds a line -/
+  full : Bool := false
   /-- handler id ↦ lines it has received, oldest first -/
   handlers : List (Nat × List String) := []
   deriving Repr, Inhabited
 
 def LW.new (cap : Nat) : LW := { logs := List.replicate cap "" }
 
-/-- `RegisterHandler`: replays the ring (from `index` to the end if the slot at
-`index` is non-empty — i.e. the ring has wrapped — then from 0 to `index`). -/
+/-- `RegisterHandler`: replays the ring (from `index` to the end if the ring has
+wrapped, then from 0 to `index`). -/
 def LW.register (w : LW) (h : Nat) : LW :=
   if (alookup w.handlers h).isSome then w else
-  let older := if w.logs.getD w.index "" != "" then w.logs.drop w.index else []
+  let older := if w.full then w.logs.drop w.index else []
   let newer := w.logs.take w.index
   { w with handlers := w.handlers ++ [(h, older ++ newer)] }
 
@@ -124,6 +126,7 @@ def LW.deregister (w : LW) (h : Nat) : LW := { w with handlers := aerase w.handl
 def LW.write (w : LW) (line : String) : LW :=
   if w.logs.length = 0 then w else   -- the real code divides by zero here; cap ≥ 1 in every caller
   { w with logs := w.logs.set w.index line, index := (w.index + 1) % w.logs.length,
+           full := w.full || ((w.index + 1) % w.logs.length == 0),
            handlers := w.handlers.map fun p => (p.1, p.2 ++ [line]) }
 
 end SerfModel.LogWriters
